@@ -55,23 +55,25 @@ func NewAnalysis(p *Prog) *Analysis {
 }
 
 type FuncCtx struct {
-	A      *Analysis
-	Fn     *ssa.Function
-	Env    map[ssa.Value]string
-	prefix string
-	depth  int
-	roots  map[ssa.Value]string
-	apMemo map[ssa.Value]string
-	apBusy map[ssa.Value]bool
-	fMemo  map[ssa.Value]*bddNode
-	nnMemo map[ssa.Value]*bddNode
-	busy   map[ssa.Value]bool
-	cond   map[*ssa.BasicBlock]*bddNode
-	rpo    []*ssa.BasicBlock
-	loops  map[*ssa.BasicBlock]map[*ssa.BasicBlock]bool // header -> blocks of natural loop
-	cycHit map[ssa.Value]bool
-	parent *FuncCtx        // for contexts of callees analysed as part of a caller
-	site   ssa.Instruction // the call site in parent
+	A       *Analysis
+	Fn      *ssa.Function
+	Env     map[ssa.Value]string
+	prefix  string
+	depth   int
+	roots   map[ssa.Value]string
+	apMemo  map[ssa.Value]string
+	apBusy  map[ssa.Value]bool
+	fMemo   map[ssa.Value]*bddNode
+	nnMemo  map[ssa.Value]*bddNode
+	busy    map[ssa.Value]bool
+	cond    map[*ssa.BasicBlock]*bddNode
+	rpo     []*ssa.BasicBlock
+	loops   map[*ssa.BasicBlock]map[*ssa.BasicBlock]bool // header -> blocks of natural loop
+	cycHit  map[ssa.Value]bool
+	parent  *FuncCtx                // for contexts of callees analysed as part of a caller
+	site    ssa.Instruction         // the call site in parent
+	argVal  map[ssa.Value]ssa.Value // parameter -> argument value in parent (contexts of inlined callees)
+	exhaust map[*ssa.BasicBlock]*bddNode
 }
 
 // AbsCond: the condition of block b expressed from the entry of the top-level function: the block's own
@@ -139,23 +141,6 @@ func (fc *FuncCtx) ensureConds() {
 	if len(fn.Blocks) == 0 {
 		return
 	}
-	// reverse postorder ignoring back edges
-	seen := map[*ssa.BasicBlock]bool{}
-	var post []*ssa.BasicBlock
-	var dfs func(b *ssa.BasicBlock)
-	dfs = func(b *ssa.BasicBlock) {
-		seen[b] = true
-		for _, s := range b.Succs {
-			if !seen[s] && !isBackEdge(b, s) {
-				dfs(s)
-			}
-		}
-		post = append(post, b)
-	}
-	dfs(fn.Blocks[0])
-	for i := len(post) - 1; i >= 0; i-- {
-		fc.rpo = append(fc.rpo, post[i])
-	}
 	// natural loops
 	fc.loops = map[*ssa.BasicBlock]map[*ssa.BasicBlock]bool{}
 	for _, b := range fn.Blocks {
@@ -183,6 +168,29 @@ func (fc *FuncCtx) ensureConds() {
 				}
 			}
 		}
+	}
+	// reverse postorder ignoring back edges
+	seen := map[*ssa.BasicBlock]bool{}
+	var post []*ssa.BasicBlock
+	var dfs func(b *ssa.BasicBlock)
+	dfs = func(b *ssa.BasicBlock) {
+		seen[b] = true
+		succs := b.Succs
+		if body, isHeader := fc.loops[b]; isHeader && len(succs) == 2 && body[succs[0]] && !body[succs[1]] {
+			// finish the loop exit first, so that the body precedes it in reverse postorder (the exit condition
+			// of a range loop is computed from the conditions inside the body)
+			succs = []*ssa.BasicBlock{succs[1], succs[0]}
+		}
+		for _, s := range succs {
+			if !seen[s] && !isBackEdge(b, s) {
+				dfs(s)
+			}
+		}
+		post = append(post, b)
+	}
+	dfs(fn.Blocks[0])
+	for i := len(post) - 1; i >= 0; i-- {
+		fc.rpo = append(fc.rpo, post[i])
 	}
 	B := fc.A.B
 	for _, b := range fc.rpo {
@@ -228,6 +236,9 @@ func (fc *FuncCtx) edgeCond(p, b *ssa.BasicBlock) *bddNode {
 		return B.True
 	}
 	if fc.isRangeTest(iff.Cond) {
+		if len(p.Succs) == 2 && p.Succs[1] == b {
+			return fc.exhaustCond(p)
+		}
 		return B.True
 	}
 	c := fc.Formula(iff.Cond)
@@ -235,6 +246,72 @@ func (fc *FuncCtx) edgeCond(p, b *ssa.BasicBlock) *bddNode {
 		return c
 	}
 	return B.Not(c)
+}
+
+// exhaustCond: the condition on the edge that leaves a range loop because the range is exhausted: no iteration left
+// the loop early (search loops: "for each x { if match(x) { return found } }; return notFound" reaches the final
+// return only when no element matched).
+func (fc *FuncCtx) exhaustCond(h *ssa.BasicBlock) *bddNode {
+	B := fc.A.B
+	if c, ok := fc.exhaust[h]; ok {
+		return c
+	}
+	if fc.exhaust == nil {
+		fc.exhaust = map[*ssa.BasicBlock]*bddNode{}
+	}
+	fc.exhaust[h] = B.True // recursion guard
+	body, ok := fc.loops[h]
+	if !ok {
+		return B.True
+	}
+	rel := fc.relConds(h, body)
+	early := B.False
+	for u := range body {
+		if u == h {
+			continue
+		}
+		rc, ok := rel[u]
+		if !ok {
+			continue
+		}
+		if len(u.Succs) == 0 {
+			early = B.Or(early, rc) // return or panic inside the loop
+			continue
+		}
+		for _, v := range u.Succs {
+			if !body[v] {
+				early = B.Or(early, B.And(rc, fc.edgeCond(u, v)))
+			}
+		}
+	}
+	// Guards inside a loop body speak about a representative element (see the package comment): "no iteration left
+	// early" is the negation of the early-exit condition. Exit conditions that mention no element are dropped (they
+	// say nothing when the range is empty).
+	cubes := B.Cubes(early, 65)
+	if len(cubes) > 64 {
+		return B.True
+	}
+	perElem := B.False
+	for _, cube := range cubes {
+		has := false
+		f := B.True
+		for _, lit := range cube {
+			if strings.Contains(lit, "[*]") {
+				has = true
+			}
+			if strings.HasPrefix(lit, "!") {
+				f = B.And(f, B.Not(B.Var(lit[1:])))
+			} else {
+				f = B.And(f, B.Var(lit))
+			}
+		}
+		if has {
+			perElem = B.Or(perElem, f)
+		}
+	}
+	c := B.Not(perElem)
+	fc.exhaust[h] = c
+	return c
 }
 
 // isRangeTest: the loop test of a range loop (i+1 < len(s), or ok of Next).
@@ -390,6 +467,11 @@ func (fc *FuncCtx) formula0(v ssa.Value) *bddNode {
 			}
 			return B.False
 		}
+	case *ssa.Parameter:
+		// a flag handed to a callee that is analysed as part of its caller is the caller's formula for it
+		if av := fc.argVal[x]; av != nil && fc.parent != nil {
+			return fc.parent.Formula(av)
+		}
 	case *ssa.UnOp:
 		if x.Op == token.NOT {
 			return B.Not(fc.Formula(x.X))
@@ -508,6 +590,32 @@ func (fc *FuncCtx) eqFormula(in ssa.Instruction, a, b ssa.Value) *bddNode {
 	if la := lenArg(b); la != nil && isIntConst(a, 0) {
 		return fc.emptyAtom(in, la)
 	}
+	// a parameter of an inlined callee compared with a constant: compare the caller's argument (which may be a phi)
+	if pa, ok := a.(*ssa.Parameter); ok && fc.parent != nil {
+		if _, isC := b.(*ssa.Const); isC {
+			if av := fc.argVal[pa]; av != nil {
+				return fc.parent.eqFormula(in, av, b)
+			}
+		}
+	}
+	if pb, ok := b.(*ssa.Parameter); ok && fc.parent != nil {
+		if _, isC := a.(*ssa.Const); isC {
+			if av := fc.argVal[pb]; av != nil {
+				return fc.parent.eqFormula(in, a, av)
+			}
+		}
+	}
+	// the result of a side-effect-free module helper compared with a constant: case split over the helper's returns
+	if _, isC := b.(*ssa.Const); isC {
+		if f, ok := fc.callResultGated(a, func(sub *FuncCtx, rv ssa.Value) *bddNode { return sub.eqFormula(in, rv, b) }); ok {
+			return f
+		}
+	}
+	if _, isC := a.(*ssa.Const); isC {
+		if f, ok := fc.callResultGated(b, func(sub *FuncCtx, rv ssa.Value) *bddNode { return sub.eqFormula(in, a, rv) }); ok {
+			return f
+		}
+	}
 	// phi operands: expand by gating
 	if ph, ok := a.(*ssa.Phi); ok {
 		if f, ok := fc.gated(ph, func(e ssa.Value) *bddNode { return fc.eqFormula(in, e, b) }); ok {
@@ -568,35 +676,40 @@ func (fc *FuncCtx) callFormula(x *ssa.Call) *bddNode {
 			}
 		}
 	}
-	// slices.Contains(literal, x): the disjunction of x == element over the literal's elements
-	if sc != nil && strings.HasPrefix(sc.String(), "slices.Contains") && len(c.Args) == 2 {
+	// slices.Contains(xs, x). A literal or a package-level table only written by its initialiser: the disjunction of
+	// x == element over its elements. Any other slice: "x equals some element of xs", the atom the range-and-compare
+	// loop produces.
+	if sc != nil && strings.HasPrefix(sc.String(), "slices.Contains[") && len(c.Args) == 2 {
+		var elems []ssa.Value
 		if sl, ok := c.Args[0].(*ssa.Slice); ok {
 			if al, ok := sl.X.(*ssa.Alloc); ok && sl.Low == nil && sl.High == nil {
-				var elems []ssa.Value
-				okAll := true
-				for _, ref := range *al.Referrers() {
-					ia, ok := ref.(*ssa.IndexAddr)
-					if !ok {
-						continue
-					}
-					for _, r2 := range *ia.Referrers() {
-						if st, ok := r2.(*ssa.Store); ok && st.Addr == ssa.Value(ia) {
-							elems = append(elems, st.Val)
-						}
-					}
-				}
-				if len(elems) > 0 && okAll {
-					acc := B.False
-					for _, e := range elems {
-						acc = B.Or(acc, fc.eqFormula(x, c.Args[1], e))
-					}
-					return acc
-				}
+				elems = arrayLiteralElems(al)
 			}
 		}
+		if ld, ok := c.Args[0].(*ssa.UnOp); ok && ld.Op == token.MUL {
+			if g, ok := ld.X.(*ssa.Global); ok {
+				elems, _ = fc.A.P.globalSliceElems(g)
+			}
+		}
+		if len(elems) > 0 {
+			acc := B.False
+			for _, e := range elems {
+				acc = B.Or(acc, fc.eqFormula(x, c.Args[1], e))
+			}
+			return acc
+		}
+		sa, sb := fc.AP(c.Args[0])+"[*]", fc.AP(c.Args[1])
+		va, vb := c.Args[0], c.Args[1]
+		if sa > sb {
+			sa, sb = sb, sa
+			va, vb = vb, va
+		}
+		return fc.A.atom("eq("+sa+","+sb+")", "eq", fc, x, []ssa.Value{va, vb}, sa, sb)
 	}
-	// module predicate functions within the inlining bound: inline as formula of the returned bool
-	if sc != nil && fc.A.Inline != nil && fc.A.Inline(sc) && fc.depth < fc.A.MaxDepth && len(sc.Blocks) > 0 {
+	// module predicate functions within the inlining bound: inline as formula of the returned bool; a side-effect-free
+	// predicate is looked through under every policy (it is a named sub-expression of the guard)
+	if sc != nil && fc.depth < fc.A.MaxDepth && len(sc.Blocks) > 0 &&
+		((fc.A.Inline != nil && fc.A.Inline(sc)) || (isPredicate(sc) && fc.A.isPureModuleFunc(sc))) {
 		sub := fc.inlineCtx(sc, c.Args, x)
 		return sub.ResultFormula(0, sub.Formula)
 	}
@@ -610,6 +723,68 @@ func (fc *FuncCtx) callFormula(x *ssa.Call) *bddNode {
 	vals := append([]ssa.Value{}, c.Args...)
 	n := fc.A.atom(name, "call", fc, x, vals, append([]string{calleeName(c)}, args...)...)
 	return n
+}
+
+// arrayLiteralElems: the values stored into the elements of a local array (the backing store of a slice literal).
+func arrayLiteralElems(al *ssa.Alloc) []ssa.Value {
+	var elems []ssa.Value
+	for _, ref := range *al.Referrers() {
+		ia, ok := ref.(*ssa.IndexAddr)
+		if !ok {
+			continue
+		}
+		for _, r2 := range *ia.Referrers() {
+			if st, ok := r2.(*ssa.Store); ok && st.Addr == ssa.Value(ia) {
+				elems = append(elems, st.Val)
+			}
+		}
+	}
+	return elems
+}
+
+// globalSliceElems: the elements of a package-level slice variable that is assigned exactly once, by its package
+// initialiser, from a literal, and that no module function writes to (neither the variable nor its elements).
+func (p *Prog) globalSliceElems(g *ssa.Global) ([]ssa.Value, bool) {
+	if g.Pkg == nil {
+		return nil, false
+	}
+	for _, fn := range p.modFns {
+		if fn.Name() == "init" && fn.Pkg == g.Pkg {
+			continue
+		}
+		for _, b := range fn.Blocks {
+			for _, in := range b.Instrs {
+				if st, ok := in.(*ssa.Store); ok && rootOfAddr(st.Addr) == ssa.Value(g) {
+					return nil, false
+				}
+			}
+		}
+	}
+	init := g.Pkg.Func("init")
+	if init == nil {
+		return nil, false
+	}
+	var out []ssa.Value
+	n := 0
+	for _, b := range init.Blocks {
+		for _, in := range b.Instrs {
+			st, ok := in.(*ssa.Store)
+			if !ok || st.Addr != ssa.Value(g) {
+				continue
+			}
+			n++
+			sl, ok := st.Val.(*ssa.Slice)
+			if !ok {
+				return nil, false
+			}
+			al, ok := sl.X.(*ssa.Alloc)
+			if !ok {
+				return nil, false
+			}
+			out = append(out, arrayLiteralElems(al)...)
+		}
+	}
+	return out, n == 1 && len(out) > 0
 }
 
 // NonNil gives the formula "v != nil" for an error/pointer/interface valued v.
@@ -646,6 +821,10 @@ func (fc *FuncCtx) nonNil0(v ssa.Value) *bddNode {
 		return B.True
 	case *ssa.Alloc, *ssa.MakeClosure, *ssa.MakeMap, *ssa.MakeSlice, *ssa.MakeChan, *ssa.Function, *ssa.FieldAddr, *ssa.IndexAddr, *ssa.Global:
 		return B.True
+	case *ssa.Parameter:
+		if av := fc.argVal[x]; av != nil && fc.parent != nil {
+			return fc.parent.NonNil(av)
+		}
 	case *ssa.MakeInterface:
 		// an interface made from a concrete value is never the nil interface (even from a nil pointer)
 		return B.True
@@ -668,6 +847,19 @@ func (fc *FuncCtx) nonNil0(v ssa.Value) *bddNode {
 				}
 				if sv := lastStoreInBlock(al, x); sv != nil {
 					return fc.NonNil(sv)
+				}
+				if sv := capturedSingleStore(al); sv != nil {
+					if st := storeOf(al); st != nil && (st.Block() == x.Block() || st.Block().Dominates(x.Block())) {
+						return fc.NonNil(sv)
+					}
+				}
+			}
+			if fv, ok := x.X.(*ssa.FreeVar); ok {
+				if sv := capturedValue(x); sv != ssa.Value(x) && fv.Parent().Parent() != nil {
+					if fc.parent != nil && fc.parent.Fn == fv.Parent().Parent() {
+						return fc.parent.NonNil(sv)
+					}
+					return fc.A.Ctx(fv.Parent().Parent()).NonNil(sv)
 				}
 			}
 		}
@@ -745,6 +937,18 @@ func (fc *FuncCtx) inlineCtx(sc *ssa.Function, args []ssa.Value, site ssa.Instru
 			env[p] = fc.AP(args[i])
 		}
 	}
+	// a function literal invoked where its captured variables are in scope: bind them
+	var binds []ssa.Value
+	if ci, ok := site.(ssa.CallInstruction); ok {
+		if mc, ok := ci.Common().Value.(*ssa.MakeClosure); ok && mc.Fn == ssa.Value(sc) {
+			binds = mc.Bindings
+			for i, fv := range sc.FreeVars {
+				if i < len(binds) {
+					env[fv] = fc.AP(binds[i])
+				}
+			}
+		}
+	}
 	pfx := fc.prefix
 	if pfx == "" {
 		pfx = fc.A.P.FnName(fc.Fn) + "/"
@@ -754,18 +958,93 @@ func (fc *FuncCtx) inlineCtx(sc *ssa.Function, args []ssa.Value, site ssa.Instru
 	if sub.parent == nil {
 		sub.parent = fc
 		sub.site = site
+		sub.argVal = map[ssa.Value]ssa.Value{}
+		for i, p := range sc.Params {
+			if i < len(args) {
+				sub.argVal[p] = args[i]
+			}
+		}
 	}
 	return sub
 }
 
+// isLocalClosureCall: the call invokes, directly, a function literal of fn (a local helper such as
+// fail := func(err error) (T, error) {...}); such a closure is analysed as part of fn.
+func isLocalClosureCall(call *ssa.Call, fn *ssa.Function) bool {
+	mc, ok := call.Call.Value.(*ssa.MakeClosure)
+	if !ok {
+		if f, ok := call.Call.Value.(*ssa.Function); ok {
+			return f.Parent() == fn
+		}
+		return false
+	}
+	f, ok := mc.Fn.(*ssa.Function)
+	return ok && f.Parent() == fn
+}
+
+// callResultGated: v is (a component of) the result of a call to a side-effect-free module function with several
+// returns: OR over the returns of (condition of the return, in the callee's context bound to the arguments) & f(value).
+func (fc *FuncCtx) callResultGated(v ssa.Value, f func(sub *FuncCtx, rv ssa.Value) *bddNode) (*bddNode, bool) {
+	idx := 0
+	var call *ssa.Call
+	switch x := v.(type) {
+	case *ssa.Call:
+		call = x
+	case *ssa.Extract:
+		c, ok := x.Tuple.(*ssa.Call)
+		if !ok {
+			return nil, false
+		}
+		call, idx = c, x.Index
+	default:
+		return nil, false
+	}
+	sc := call.Call.StaticCallee()
+	if sc == nil || fc.depth >= fc.A.MaxDepth || len(sc.Blocks) == 0 || !fc.A.isPureModuleFunc(sc) {
+		return nil, false
+	}
+	sub := fc.inlineCtx(sc, call.Call.Args, call)
+	B := fc.A.B
+	acc := B.False
+	n := 0
+	for _, ret := range sub.Returns() {
+		if idx >= len(ret.Results) {
+			return nil, false
+		}
+		n++
+		acc = B.Or(acc, B.And(sub.Cond(ret.Block()), f(sub, ret.Results[idx])))
+	}
+	return acc, n > 0
+}
+
 // inlineResult: formula "result idx of the call is non-nil" through the callee's body, when the
-// inlining policy admits the callee.
+// inlining policy admits the callee (or the callee is a side-effect-free helper).
 func (fc *FuncCtx) inlineResult(call *ssa.Call, sc *ssa.Function, idx int) (*bddNode, bool) {
-	if fc.A.Inline == nil || !fc.A.Inline(sc) || fc.depth >= fc.A.MaxDepth || len(sc.Blocks) == 0 {
+	if fc.depth >= fc.A.MaxDepth || len(sc.Blocks) == 0 {
+		return nil, false
+	}
+	if (fc.A.Inline == nil || !fc.A.Inline(sc)) && !fc.A.isPureModuleFunc(sc) && !isLocalClosureCall(call, fc.Fn) {
 		return nil, false
 	}
 	sub := fc.inlineCtx(sc, call.Call.Args, call)
 	return sub.ResultFormula(idx, sub.NonNil), true
+}
+
+// singleReturn: the only Return instruction of fn (nil if there are several).
+func singleReturn(fn *ssa.Function) *ssa.Return {
+	var ret *ssa.Return
+	for _, b := range fn.Blocks {
+		if len(b.Instrs) == 0 || b == fn.Recover {
+			continue
+		}
+		if r, ok := b.Instrs[len(b.Instrs)-1].(*ssa.Return); ok {
+			if ret != nil {
+				return nil
+			}
+			ret = r
+		}
+	}
+	return ret
 }
 
 // Returns lists the Return instructions of the function.
@@ -962,11 +1241,15 @@ func (fc *FuncCtx) existsAtom(set *bddNode, at ssa.Value) *bddNode {
 		return set
 	}
 	cs := B.Cubes(set, 8)
-	if len(cs) == 1 && len(cs[0]) == 1 && !strings.HasPrefix(cs[0][0], "!") {
+	if len(cs) == 1 && len(cs[0]) == 1 && !strings.HasPrefix(cs[0][0], "!") && strings.Contains(cs[0][0], "[*]") {
 		return B.Var(cs[0][0])
 	}
 	name := "exists{" + fc.A.canon(set) + "}"
-	return fc.A.atom(name, "exists", fc, instrOf(at), nil, fc.A.canon(set))
+	var in ssa.Instruction
+	if at != nil {
+		in = instrOf(at)
+	}
+	return fc.A.atom(name, "exists", fc, in, nil, fc.A.canon(set))
 }
 
 // canon renders a formula independently of the variable order of the shared diagram.
@@ -1037,6 +1320,34 @@ func (fc *FuncCtx) TimeTermOf(v ssa.Value) *TimeTerm {
 			if sc := x.Call.StaticCallee(); sc != nil && (sc.String() == "(time.Time).UTC" || sc.String() == "(time.Time).Local") {
 				cur = x.Call.Args[0]
 				continue
+			}
+			// a side-effect-free module helper that computes an instant (deadline(t) = t.Add(Tolerance)): its
+			// result is the helper's term with the parameters bound to the arguments
+			if sc := x.Call.StaticCallee(); sc != nil && fc.depth < fc.A.MaxDepth && fc.A.isPureModuleFunc(sc) {
+				if ret := singleReturn(sc); ret != nil && len(ret.Results) == 1 {
+					sub := fc.inlineCtx(sc, x.Call.Args, x)
+					tt := sub.TimeTermOf(ret.Results[0])
+					for k, v := range tt.Coef {
+						t.Coef[k] += v
+					}
+					t.Const += tt.Const
+					t.Opaque = t.Opaque || tt.Opaque
+					if prm, ok := tt.BaseV.(*ssa.Parameter); ok {
+						found := false
+						for i, q := range sc.Params {
+							if q == prm && i < len(x.Call.Args) {
+								cur = x.Call.Args[i]
+								found = true
+							}
+						}
+						if found {
+							continue
+						}
+					}
+					t.Base = tt.Base
+					t.BaseV = tt.BaseV
+					return t
+				}
 			}
 		case *ssa.ChangeType:
 			cur = x.X
